@@ -578,9 +578,9 @@ def run(ctx, res):
     rng = ctx.rng
     stats = {"set": 0, "sum": 0, "reset": 0, "set_raises": 0, "sum_true": 0, "poked_single_offender": 0}
     cases = []
-    for _ in range(ctx.n(240, 6000)):
+    for _ in range(ctx.n(240, 3000)):
         cases.append(run_sequence(rng, res, stats))
-    for _ in range(ctx.n(300, 6000)):
+    for _ in range(ctx.n(300, 4000)):
         cases.append(run_poked(rng, res, stats))
     cr = C.run_corr(ctx.pid, "seq", IMPORTS, "list contest * list step", cases, seq_lit, "agree_seq", shard=min(250, max(20, -(-len(cases) // 16))), show="show_seq")
     res.corr.append(("set_p_values / summarize_status / reset_p_values sequences vs Status.v", cr, seq_json))
